@@ -163,6 +163,48 @@ Definition sim_paths (st : ast) (ps : list spath) : ares ast :=
 (* all atoms, wherever they are *)
 Definition atoms (st : ast) : list nat := map snd (occ st) ++ map snd (held st).
 
+(* ---------- recognising the round-trip shape of the CZ move (C08; proofs in Proofs/AodRoundTrip.v) ----------
+   forward: go to a grid s, switch everything on, travel s -> w1 -> ... -> wn;
+   backward: travel wn -> ... -> w1 -> s, switch everything off.  The recogniser compares coordinates
+   syntactically (same numerator and denominator), which is what the implementation's reversal produces. *)
+Definition Qsyn_eqb (a b : Q) : bool := Z.eqb (Qnum a) (Qnum b) && Pos.eqb (Qden a) (Qden b).
+Fixpoint qlist_eqb (a b : list Q) : bool :=
+  match a, b with
+  | [], [] => true
+  | x :: r, y :: r' => Qsyn_eqb x y && qlist_eqb r r'
+  | _, _ => false
+  end.
+Definition wp_eqb (a b : list Q * list Q) : bool := qlist_eqb (fst a) (fst b) && qlist_eqb (snd a) (snd b).
+Fixpoint wps_eqb (a b : list (list Q * list Q)) : bool :=
+  match a, b with
+  | [], [] => true
+  | x :: r, y :: r' => wp_eqb x y && wps_eqb r r'
+  | _, _ => false
+  end.
+Definition is_all (s : sel) : bool := match s with SSlice None None None => true | _ => false end.
+Definition wp_okb (nx ny : nat) (w : list Q * list Q) : bool :=
+  (length (fst w) =? nx) && (length (snd w) =? ny) && distinct_q (fst w) && distinct_q (snd w).
+Definition on_traps (T : list pos) (s : list Q * list Q) : bool :=
+  forallb (fun x => forallb (fun y => existsb (pos_eqb (x, y)) T) (snd s)) (fst s).
+Fixpoint occ_wfb (o : list (pos * nat)) : bool :=
+  match o with [] => true | (p, _) :: r => negb (existsb (fun e => pos_eqb p (fst e)) r) && occ_wfb r end.
+
+Definition recognise_round_trip (ps : list spath) : option (nat * nat * (list Q * list Q) * list (list Q * list Q)) :=
+  match ps with
+  | [mkspath nx ny [SWay [s]; SSwitch On x y; SWay (s' :: ws)]; mkspath nx' ny' [SWay r; SSwitch Off x' y'; SWay [s'']]] =>
+      if (nx =? nx') && (ny =? ny') && is_all x && is_all y && is_all x' && is_all y'
+         && wp_eqb s s' && wp_eqb s s'' && wps_eqb r (rev (s :: ws))
+      then Some (nx, ny, s, ws) else None
+  | _ => None
+  end.
+
+(* everything the round-trip theorem asks for, decided by computation on a concrete call *)
+Definition round_trip_ok (T : list pos) (O : list (pos * nat)) (ps : list spath) : bool :=
+  match recognise_round_trip ps with
+  | Some (nx, ny, s, ws) => wp_okb nx ny s && forallb (wp_okb nx ny) ws && on_traps T s && occ_wfb O
+  | None => false
+  end.
+
 (* rendering *)
 Local Open Scope string_scope.
 Definition show_aerr (e : aerr) : string :=
@@ -181,3 +223,4 @@ Definition show_sim (r : ares ast) : string :=
   | AOk st => "ok held=" ++ show_nat (length (held st)) ++ " occ=" ++
               show_list (fun o => show_nat (snd o) ++ "@" ++ show_Q (fst (fst o)) ++ "," ++ show_Q (snd (fst o))) (sort_occ (occ st))
   end.
+
